@@ -1,6 +1,6 @@
 (* C04 driver.
-     rel <name> <message|-> <target|-> <ttype c|d|v|r|s> <author fullname|-> <date s:us:offhex|->
-         -> ok <manifest hex> <sha1 hex> | err ValueError | err TypeError
+     rel <name> <message|-> <target|-> <ttype c|d|v|r|s> <author fullname|-> <date s:us:offhex|-> [<raw manifest>]
+         -> ok <manifest hex> <sha1 hex> [<id = rel_compute_hash sha1 r, when a raw manifest is given>] | err ValueError | err TypeError
      ptag <manifest hex> -> ok <object> <type> <tag> <tagger|-> <message|-> | none *)
 let parse_date (s : string) : tstz option =
   if s = "-" then None else
@@ -9,17 +9,20 @@ let parse_date (s : string) : tstz option =
   | _ -> failwith "date"
 let parse_person (s : string) : person option =
   if s = "-" then None else Some { fullname = bytes_of_hex s; p_name = None; p_email = None }
+let rel name msg tgt tt au dt raw =
+  let r = { r_name = bytes_of_hex name; r_message = opt_bytes_of_hex msg; r_target = opt_bytes_of_hex tgt;
+            r_ttype = (match tt with "c" -> RContent | "d" -> RDirectory | "v" -> RRevision | "r" -> RRelease | _ -> RSnapshot);
+            r_synthetic = false; r_author = parse_person au; r_date = parse_date dt; r_metadata = None;
+            r_raw_manifest = opt_bytes_of_hex raw } in
+  if not (release_valid r) then "err ValueError" else
+  (match release_git_object r with
+   | MOk m -> "ok " ^ hex_of_bytes m ^ " " ^ hex_of_bytes (sha1 m) ^
+              (if raw = "-" then "" else " " ^ hex_of_opt_bytes (rel_compute_hash sha1 r))
+   | MTypeError -> "err TypeError"
+   | MValueError -> "err ValueError")
 let () = serve (function
-  | ["rel"; name; msg; tgt; tt; au; dt] ->
-      let r = { r_name = bytes_of_hex name; r_message = opt_bytes_of_hex msg; r_target = opt_bytes_of_hex tgt;
-                r_ttype = (match tt with "c" -> RContent | "d" -> RDirectory | "v" -> RRevision | "r" -> RRelease | _ -> RSnapshot);
-                r_synthetic = false; r_author = parse_person au; r_date = parse_date dt; r_metadata = None;
-                r_raw_manifest = None } in
-      if not (release_valid r) then "err ValueError" else
-      (match release_git_object r with
-       | MOk m -> "ok " ^ hex_of_bytes m ^ " " ^ hex_of_bytes (sha1 m)
-       | MTypeError -> "err TypeError"
-       | MValueError -> "err ValueError")
+  | ["rel"; name; msg; tgt; tt; au; dt] -> rel name msg tgt tt au dt "-"
+  | ["rel"; name; msg; tgt; tt; au; dt; raw] -> rel name msg tgt tt au dt raw
   | ["ptag"; m] ->
       (match parse_tag (bytes_of_hex m) with
        | Some f -> String.concat " " ["ok"; hex_of_bytes f.t_object; hex_of_bytes f.t_type; hex_of_bytes f.t_tag;
